@@ -53,7 +53,7 @@ Str segments_to_path(bool hasAuth, bool absolutePath, const StrVec& segs);
 Str rfc_remove_dot_segments(const Str& path);   // RFC 3986 5.2.4 verbatim
 Str remove_dots(const Str& path, bool rooted);  // rootless stays rootless
 // returns false if base has no scheme. guard: add the '.' guard segment (C06 last sentence)
-bool resolve(const Comp& base, const Comp& ref, bool compat, Comp* out, bool guard = true);
+bool resolve(const Comp& base, const Comp& ref, bool compat, Comp* out, bool guard = true, Str* rootlessBeforeRemoval = nullptr);   // last: the path dot removal started from, when that path was rootless (else untouched)
 
 // ---------------------------------------------------------------- M-NORM
 bool is_unreserved(unsigned c);
